@@ -173,6 +173,8 @@ CtorDictOK(sig, sh, d, zkw) ==
     /\ \A j \in 1..sig.n :
           IF j <= sh.npos THEN DictLookup(d, CFNames[j]) = IntC(10 + j)
           ELSE IF CInSeq(CFNames[j], sh.kws) THEN DictLookup(d, CFNames[j]) = IntC(30 + j)
+          \* a default that cannot be written as a literal of a transportable type: left out, or None itself
+          ELSE IF j = sig.r + 1 /\ sig.dk = "none1" THEN DictLookup(d, CFNames[j]) \in {Absent, NoneC}
           ELSE IF j > sig.r THEN DictLookup(d, CFNames[j]) = IntC(20 + j)    \* bound to its declared default
           ELSE TRUE
 
